@@ -563,8 +563,7 @@ MUTANTS = [
     dict(rule='C09.use', name='duration peeks an empty score', file='sc3/base/_oscinterface.py',
          old="        if self._scoreq.empty():\n            return None  # Uninitialized.\n        return self._scoreq.peek(False)[0] * clk", new="        return self._scoreq.peek(False)[0] * clk"),
     dict(rule='C09.items', name='NRT clock tasks compare by task', file='sc3/base/clock.py',
-         old="    def _wakeup(self, time):\n        try:\n            _libsc3.main._update_logical_time(time)\n            beats = self.clock.secs2beats(time)",
-         new="    def __eq__(self, other):\n        return self.task is other.task\n\n    def __hash__(self):\n        return id(self.task)\n\n    def _wakeup(self, time):\n        try:\n            _libsc3.main._update_logical_time(time)\n            beats = self.clock.secs2beats(time)"),
+         old="            and self.clock is other.clock and self.task is other.task", new="            and self.task is other.task"),
 ]
 
 REPAIRS = []
